@@ -535,27 +535,42 @@ def eff_overflow(d, opts):
     return d.get("overflow") or opts.get("overflow") or "fold"
 
 
-def domain(e, opts, console):
-    """'in' | 'out' | 'f23' | 'floor:<n>' for a renderable in EXPOSED position (its lines reach the output uncropped) under `opts`:
-    'out'  = outside what C01 claims: text / str with effective overflow="ignore", a text / rule / title / caption `end` other
-             than "\n" (for texts and rules "" is inside too), a group member that does not end its line followed by a sibling,
-             a table with width / min_width / no_wrap columns that does not meet the budget of C07's width_bound_general
-             (`table_general`; tables whose columns are free to wrap, ratio columns included, are inside), Columns(width=0);
-    'floor:<n>' = such a table within the budget whose min_width binds: it may be n cells wider (evaluated for a root table only);
-    'f23'  = inside, except that a ProgressBar is followed by a sibling in a group (known finding progressbar-no-newline).
-    Wider than the Lean `Dom` on purpose: Constrain / Align at any inner width, an explicit Table(width=...) and
-    Columns(width >= 1) are evaluated everywhere (NOT DISCHARGED in Props/C01.lean: no counterexample is known)."""
+def domain(e, opts, console, w=None):
+    """The Lean `Dom cfg r opts w` (Lemmas/LayoutBase.lean) for a renderable in EXPOSED position, rendered with `w` cells available
+    (default: `console._verif_w`, the width of the current rendering).  Returns
+    'in'        inside `Dom`;
+    'f23'       inside, except that a ProgressBar is followed by a sibling in a group (known finding progressbar-no-newline);
+    'floor:<n>' a root table with arbitrary columns inside `tableBudget` whose min_width binds: `table_general_bound` allows n more cells;
+    'open'      ('open:f23' when a ProgressBar is also followed by a sibling) outside `Dom` only through a condition marked NOT DISCHARGED in Props/C01.lean (a free table / Columns offered less than
+                one cell per column inside a narrower Constrain / Align, Columns(width >= 1)): no counterexample is known — the check
+                evaluates the bound there too, under its own site name, and any failure would be a new witness;
+    'out'       outside `Dom` with a witness (`excluded_*`): text / str with effective overflow="ignore", an `end` other than "\n" (""
+                is inside for texts and rules), a group member that does not end its line followed by a sibling, a table with width /
+                min_width / no_wrap columns outside the budget, Columns(width=0)."""
+    if w is None:
+        w = getattr(console, "_verif_w", None)
+        if w is None:
+            # a caller that does not say at which width (harness/props/c09.py): the width-dependent conditions cannot be evaluated;
+            # the undischarged region is then treated as inside, as it always was there
+            r = _domain_at(e, opts, console, None)
+            return {"open": "in", "open:f23": "f23"}.get(r, r)
+    return _domain_at(e, opts, console, w)
+
+
+def _domain_at(e, opts, console, w):
+    domain = _domain_at  # recursive calls below thread the width explicitly
     k = e[0]
     res = "in"
+    rank = {"in": 0, "f23": 1, "open": 2, "open:f23": 3, "out": 4}
 
     def join(r):
         nonlocal res
-        if r == "out" or res == "out" or r.startswith("floor:"):
-            res = "out"  # (a min_width floor is only accounted for when the table is the root)
-        elif r == "f23" or res == "f23":
-            res = "f23"
-        elif r == "rz":
-            res = "rz"
+        if r.startswith("floor:"):
+            r = "out"  # (a min_width floor is only accounted for when the table is the root)
+        if {r, res} <= {"f23", "open", "open:f23"} and r != res:
+            res = "open:f23"  # an undischarged condition AND a ProgressBar followed by a sibling
+        elif rank[r] > rank[res]:
+            res = r
 
     if k == "T":
         return "out" if eff_overflow(e[1], opts) == "ignore" or e[1].get("end", "\n") not in ("\n", "") else "in"
@@ -566,17 +581,23 @@ def domain(e, opts, console):
     if k == "RULE":
         return "out" if e[1].get("end", "\n") not in ("\n", "") else "in"
     if k in ("STY", "CAST", "OPQ"):
-        return domain(e[1], opts, console)
+        return domain(e[1], opts, console, w)
     if k == "CON":
-        # Dom asks `Constrain(width=k)` for k >= smin(child); no counterexample is known below that, so evaluate everywhere
-        return domain(e[2], opts, console)
+        # Dom (.constrain k c) o w = Dom c o (min k w): no condition on the inner width itself
+        inner = w if (e[1] is None or w is None) else min(e[1], w)
+        return domain(e[2], opts, console, inner)
     if k == "ALIGN":
-        # likewise for the width Align picks (the child's measured maximum)
-        return domain(e[2], opts, console)
+        inner = w
+        if w is not None:
+            m = real_measure(console, e[2], console.width)
+            if isinstance(m, str):
+                return "out"
+            inner = min(max(1, m[1]), w) if e[1].get("width") is None else min(max(1, m[1]), e[1]["width"], w)
+        return domain(e[2], opts, console, inner)
     if k == "GRP":
         items = e[2]
         for i, c in enumerate(items):
-            join(domain(c, opts, console))
+            join(domain(c, opts, console, w))
             if i + 1 < len(items) and not closed(c):
                 join("f23" if only_bars_open(c) else "out")
         return res
@@ -587,17 +608,26 @@ def domain(e, opts, console):
             if d is not None and (eff_overflow(d, opts) == "ignore" or d.get("end", "\n") != "\n"):
                 return "out"
         if any(co.get("width") is not None or co.get("min_width") is not None or co.get("no_wrap", False) for co, _h, _f, _cs in cols):
-            # columns that are not free to wrap: inside the domain when the first-pass widths of the columns that may not shrink plus
-            # one cell per column that may fit the width on offer, and no min_width binds (C07 width_fits_general); `w` is needed
-            floor = table_general(e, console, getattr(console, "_verif_w", None))
+            # columns that are not free to wrap: `tableBudget` (C07 width_bound_general), computed on the real table
+            floor = table_general(e, console, w)
             return "in" if floor == 0 else ("out" if floor is None else "floor:%d" % floor)
-        return "in"  # (Dom also asks an explicit Table(width) for one cell per column; no counterexample known: evaluated everywhere)
+        if cols and w is not None:
+            # free columns: the width the table is laid out for leaves one cell per column (implied by smin <= w at top level)
+            box = o.get("box", "HEAVY_HEAD")
+            extra = (2 if box is not None and o.get("show_edge", True) else 0) + (len(cols) - 1 if box is not None else 0)
+            if extra + len(cols) > (o["width"] if o.get("width") is not None else w):
+                return "open"
+        return "in"
     if k == "COLS":
         d = e[1].get("title")
         if d is not None and (eff_overflow(d, opts) == "ignore" or d.get("end", "\n") != "\n"):
             return "out"
         if e[1].get("width") == 0:
-            return "out"  # Columns(width=0): as many zero-width columns as there are cells; every one still gets a cell (witness in Props/C01.lean)
+            return "out"  # witness `excluded_columns_width_zero`
+        if e[1].get("width") is not None:
+            return "open"
+        if w is not None and len(e[2]) > w:
+            return "open"
         return "in"
     raise ValueError(k)
 
